@@ -34,6 +34,9 @@ type CheckSpec struct {
 
 func writeCurrent(p *Plan) {
 	if path := os.Getenv("VERIF_CURRENT"); path != "" {
+		if os.Getenv("VERIF_CURRENT_PERPID") != "" {
+			path = fmt.Sprintf("%s.%d", path, os.Getpid())
+		}
 		b, _ := json.Marshal(map[string]any{"property": os.Getenv("VERIF_PROP"), "input": p})
 		_ = os.WriteFile(path, b, 0o644)
 	}
@@ -209,3 +212,5 @@ func LoadRegressions(prop string) []*Plan {
 
 func tier() string      { return report.Tier() }
 func shard() (int, int) { return report.Shard() }
+
+func jsonUnmarshal(b []byte, v any) error { return json.Unmarshal(b, v) }
